@@ -528,4 +528,5 @@ func runC11(a *A) {
 	}
 	a.exhaustive = true
 	a.Extra["specialisations"] = len(specs)
+	a.Extra["distinct_cases"] = counts["specs"]
 }
